@@ -81,6 +81,48 @@ func buildVariedQuery(id uint16, shape int, qnames []string, extraBits uint16) [
 	return b
 }
 
+// buildExactSize builds a well-formed name query of exactly size bytes: as many questions about name as fit, the
+// first of them with a scope id that makes up the difference (nil if that cannot be done).
+func buildExactSize(id uint16, size int, name string) []byte {
+	mk := func(nq int, scope string) []byte {
+		p := &nbtns.NBTNSPacket{Header: nbtns.NBTNSHeader{TransactionID: id, Questions: uint16(nq)}}
+		for i := 0; i < nq; i++ {
+			q := nbtns.NBTNSQuestion{Name: &nbtns.NetBIOSName{Name: name}, Type: 0x20, Class: 1}
+			if i == 0 {
+				q.Name.ScopeID = scope
+			}
+			p.Questions = append(p.Questions, q)
+		}
+		b, err := p.Marshal()
+		if err != nil {
+			return nil
+		}
+		return b
+	}
+	b1, b2 := mk(1, ""), mk(2, "")
+	if b1 == nil || b2 == nil || len(b2) <= len(b1) || size < len(b1)+2 {
+		return nil
+	}
+	nq := 1 + (size-2-len(b1))/(len(b2)-len(b1))
+	base := mk(nq, "")
+	if base == nil {
+		return nil
+	}
+	deficit := size - len(base)
+	if deficit < 2 || deficit > 64 {
+		return nil
+	}
+	scope := make([]byte, deficit-1)
+	for i := range scope {
+		scope[i] = byte('a' + i%26)
+	}
+	b := mk(nq, string(scope))
+	if len(b) != size {
+		return nil
+	}
+	return b
+}
+
 type nbResp struct {
 	id      uint16
 	flags   uint16
@@ -264,8 +306,8 @@ func readFrame(c net.Conn) []byte {
 
 // ---------------------------------------------------------------- opcode routing enumeration
 
-// EnumSize: 3 transports x 16 opcodes x 2 dialects.
-func EnumSize() int64 { return 3 * 16 * 2 }
+// EnumSize: 3 transports x 16 opcodes x 2 dialects x {request, response bit set}.
+func EnumSize() int64 { return 3 * 16 * 2 * 2 }
 
 var transportNames = [...]string{"Server/udp", "UDPServer", "TCPServer"}
 
@@ -306,7 +348,12 @@ func runOpcodeProbe(index int64) (desc string, bad *hx.Violation) {
 	tr := int(index % 3)
 	opcode := int(index / 3 % 16)
 	additional := index/48%2 == 1
-	desc = fmt.Sprintf("transport=%s opcode=%d record-in=%s", transportNames[tr], opcode, map[bool]string{false: "answer-section", true: "additional-section"}[additional])
+	respBit := index/96%2 == 1 // the packet has R = 1: it is a response, and a name server has no handler for responses
+	rb := uint16(0)
+	if respBit {
+		rb = 0x8000
+	}
+	desc = fmt.Sprintf("transport=%s opcode=%d record-in=%s R=%d", transportNames[tr], opcode, map[bool]string{false: "answer-section", true: "additional-section"}[additional], rb>>15)
 	kind := 2
 	if tr == 0 {
 		kind = 1
@@ -360,9 +407,9 @@ func runOpcodeProbe(index int64) (desc string, bad *hx.Violation) {
 			rt.JumpClock(int64(15 * time.Second)) // t0+15
 			var req []byte
 			if probe == 0 {
-				req = buildRequest(0x0777, opcode, 0, []string{nameX}, nameY, ipB, 3600, additional)
+				req = buildRequest(0x0777, opcode, rb, []string{nameX}, nameY, ipB, 3600, additional)
 			} else {
-				req = buildRequest(0x0778, opcode, 0, []string{nameX}, nameX, ipA, 20, additional)
+				req = buildRequest(0x0778, opcode, rb, []string{nameX}, nameX, ipA, 20, additional)
 			}
 			raw := exchange(req, 3*time.Second)
 			if raw != nil {
@@ -431,7 +478,10 @@ func runOpcodeProbe(index int64) (desc string, bad *hx.Violation) {
 		exp = "no handler (no table effect, no positive answer)"
 		okv = none && !facts.srvErrP1
 	}
-	if additional && (opcode == 5 || opcode == 6 || opcode == 8) {
+	if respBit {
+		exp = "nothing: a packet with R = 1 is a response, not a request (no table effect, no positive answer)"
+		okv = none && !facts.srvErrP1
+	} else if additional && (opcode == 5 || opcode == 6 || opcode == 8) {
 		// a handler's effect must show in at least one dialect (checked in the answer-section run);
 		// in this dialect only the absence of another handler's effect is checked
 		if none {
@@ -462,6 +512,8 @@ type nbClient struct {
 	got            [][]byte // datagrams / frames received, raw
 	tcp            bool
 	abortAt        int // tcp: abort after this many bytes written (-1 none)
+	runtAt         int // tcp: a frame with length prefix runtLen (1..11) goes out before this request (-1 none)
+	runtLen        int
 	gaps           []int
 	sentAll        bool
 	deadline       bool
